@@ -4,7 +4,7 @@ import re
 
 from ..pycfg import CFG, walk_no_nested
 from ..pyflow import ReachingDefs
-from ..source import AnalysisError, find_function, find_class, first_line, src, functions
+from ..source import linear, guard_walk, AnalysisError, find_function, find_class, first_line, src, functions
 
 SM = "nemoguardrails/colang/v2_x/runtime/statemachine.py"
 EMIT = "_generate_action_event_from_actionable_element"
@@ -92,7 +92,7 @@ def run(ctx):
     # a separate obligation below), so paths skip its iterations
     inner_first = set()
     for f in ast.walk(gl):
-        if isinstance(f, ast.For) and f is not gl and any(f is s for s in gl.body):
+        if isinstance(f, ast.For) and f is not gl and any(f is s for s in linear(gl.body)):
             inode0 = cfg.node_of(f.iter)
             inner_first |= {m for m, lab in inode0.succ if lab is True}
     for f0 in first:
@@ -102,23 +102,41 @@ def run(ctx):
     # an iteration whose group is EMPTY (all its heads belong to flows that were aborted while an earlier loop was resolved) emits nothing, by definition
     gname = gl.target.id if isinstance(gl.target, ast.Name) else None
 
+    def _empty_when(test):
+        """True: the test holds exactly when the group is empty; False: exactly when it is non-empty; None: unrelated test."""
+        if isinstance(test, ast.UnaryOp) and isinstance(test.op, ast.Not):
+            r = _empty_when(test.operand)
+            return None if r is None else (not r)
+        txt = re.sub(r"\s", "", src(test))
+        if gname and txt in ("len(%s)==0" % gname, "len(%s)<1" % gname, "0==len(%s)" % gname):
+            return True
+        if gname and txt in ("len(%s)>0" % gname, "len(%s)>=1" % gname, "len(%s)!=0" % gname, "len(%s)" % gname, gname):
+            return False
+        return None
+
     def _empty_group_exit(p):
         for n in p:
-            if n.kind == "test" and n.ast is not None and gname and re.sub(r"\s", "", src(n.ast)) in ("len(%s)==0" % gname, "not%s" % gname, "len(%s)<1" % gname):
+            if n.kind == "test" and n.ast is not None:
+                e = _empty_when(n.ast)
+                if e is None:
+                    continue
                 outs = {lab: m for m, lab in n.succ}
                 nxt = p[p.index(n) + 1] if p.index(n) + 1 < len(p) else None
-                if nxt is not None and outs.get(True) is nxt:
+                if nxt is not None and outs.get(e) is nxt:
+                    return True
+                if nxt is None and e is False:
+                    # the path ends at the test: the false edge leads straight back to the loop header
                     return True
         return False
     counts = sorted({sum(1 for n in p if is_emit(n)) for p in paths if not _empty_group_exit(p)})
     ctx.check("C05.b.one-emission", SM, unit, "emissions per group iteration", counts == [1],
               "on every path through one group iteration exactly one action event is generated (counts over %d paths: %s)" % (len(paths), counts), line=gl.lineno)
-    inner = [f for f in ast.walk(gl) if isinstance(f, ast.For) and f is not gl and any(f is s for s in gl.body)]
+    inner = [f for f in ast.walk(gl) if isinstance(f, ast.For) and f is not gl and any(f is s for s in linear(gl.body))]
     inner_emit = [c for f in inner for c in ast.walk(f) if isinstance(c, ast.Call) and isinstance(c.func, ast.Name) and c.func.id == EMIT]
     ctx.check("C05.b.one-emission", SM, unit, "no emission for co-winners", not inner_emit,
               "no action event is generated inside the loop over the other heads (co-winners share the winner's action)", line=gl.lineno)
     # emission argument is the picked head
-    sorted_vars = [s.targets[0].id for s in gl.body if isinstance(s, ast.Assign) and isinstance(s.value, ast.Call)
+    sorted_vars = [s.targets[0].id for s in linear(gl.body) if isinstance(s, ast.Assign) and isinstance(s.value, ast.Call)
                    and isinstance(s.value.func, ast.Name) and s.value.func.id == "sorted" and isinstance(s.targets[0], ast.Name)]
 
     def _is_pick(v):
@@ -128,9 +146,9 @@ def run(ctx):
             return any(isinstance(n, ast.Name) and n.id in sorted_vars for n in ast.walk(v.value)) and not isinstance(v.slice, ast.Slice)
         return False
 
-    pick = [s for s in gl.body if isinstance(s, ast.Assign) and isinstance(s.targets[0], ast.Name) and _is_pick(s.value)]
+    pick = [s for s in linear(gl.body) if isinstance(s, ast.Assign) and isinstance(s.targets[0], ast.Name) and _is_pick(s.value)]
     pv = pick[0].targets[0].id if pick else None
-    emits = [c for s in gl.body for c in ast.walk(s) if isinstance(c, ast.Call) and isinstance(c.func, ast.Name) and c.func.id == EMIT]
+    emits = [c for s in linear(gl.body) for c in ast.walk(s) if isinstance(c, ast.Call) and isinstance(c.func, ast.Name) and c.func.id == EMIT]
     ctx.check("C05.b.one-emission", SM, unit, "emission for the picked head", bool(emits) and pv is not None and all(src(c.args[-1]) == pv for c in emits),
               "the generated action event is the picked head's (`%s`)" % pv, line=gl.lineno)
     # single-head shortcut
@@ -163,16 +181,40 @@ def run(ctx):
         ipaths += cfg.paths(f0, inode, max_paths=20000, back_limit=1)
     ctx.count(len(ipaths))
     bad = []
+
+    def _same_head_when(test):
+        """True: the test holds exactly when the competing head IS the picked head; False: exactly when it is another head; None: unrelated."""
+        if isinstance(test, ast.UnaryOp) and isinstance(test.op, ast.Not):
+            r = _same_head_when(test.operand)
+            return None if r is None else (not r)
+        if isinstance(test, ast.Compare) and len(test.ops) == 1 and {src(test.left), src(test.comparators[0])} == {ihv, pv}:
+            if isinstance(test.ops[0], (ast.Eq, ast.Is)):
+                return True
+            if isinstance(test.ops[0], (ast.NotEq, ast.IsNot)):
+                return False
+        return None
+
+    def _is_picked_path(p):
+        for k, n in enumerate(p):
+            if n.kind == "test" and n.ast is not None:
+                e = _same_head_when(n.ast)
+                if e is None:
+                    continue
+                outs = {lab: m for m, lab in n.succ}
+                nxt = p[k + 1] if k + 1 < len(p) else None
+                if nxt is not None:
+                    return outs.get(e) is nxt
+                return outs.get(e) is inode or outs.get(not e) is not inode
+        return False
+
     for p in ipaths:
         fates = [fate(n) for n in p if fate(n)]
-        skipped = any(n.kind == "stmt" and isinstance(n.ast, ast.Continue) for n in p)
-        if skipped:
-            # only the picked head may be skipped
-            cont = [n for n in p if n.kind == "stmt" and isinstance(n.ast, ast.Continue)][0]
-            par = getattr(cont.ast, "_parent", None)
-            okskip = isinstance(par, ast.If) and src(par.test) in ("%s == %s" % (ihv, pv), "%s == %s" % (pv, ihv), "%s is %s" % (ihv, pv)) and not fates
-            if not okskip:
-                bad.append(("skip", p))
+        if _is_picked_path(p):
+            # only the picked head is passed over, and nothing happens to it here
+            if fates:
+                bad.append((fates, p))
+        elif any(n.kind == "stmt" and isinstance(n.ast, ast.Continue) for n in p) and not fates:
+            bad.append(("skip", p))
         elif len(fates) != 1:
             bad.append((fates, p))
     ctx.check("C05.c.one-fate", SM, unit, "fates per competing head", not bad,
@@ -200,12 +242,22 @@ def run(ctx):
                 ok = any(isinstance(s, ast.Assign) and src(s.targets[0]) == "%s.position" % ihv and "element_labels" in inline_temporaries(s.value, fn, s.lineno) for s in blk.body)
             ctx.check("C05.c.advance-guard", SM, unit, first_line(n.ast) + " under " + (conds[0][:40] if conds else "nothing"), ok,
                       "a competing head proceeds only if its action is identical to the winner's (`is_equal`) or it jumps to its failure-catch label", line=n.line)
+            if is_catch and not is_eq:
+                # identical actions all proceed: the catch-label forward is for LOSERS only, so the identity test must have been taken (and failed) on every path to it
+                eq_tests = [m for m in cfg.nodes if m.kind == "test" and m.ast is not None and ("is_equal" in src(m.ast) or _derives_from_is_equal(m.ast, fn))
+                            and any(m.ast is y or any(m.ast is z for z in ast.walk(y)) for x in il.body for y in ast.walk(x) if isinstance(y, ast.If) and (y.test is m.ast))]
+                starts = [m for m, lab in inode.succ if lab is True]
+                okc = bool(eq_tests) and all(cfg.must_pass(st0, n, eq_tests, include_a=True) for st0 in starts)
+                ctx.check("C05.c.one-fate", SM, unit, "catch-label forward only after the identity test", okc,
+                          "a competing head is forwarded to its failure-catch label only after its action was compared with the winner's and found different" if okc else
+                          "a competing head with a failure-catch label is forwarded to that label BEFORE its action is compared with the winner's: a head that starts the IDENTICAL action "
+                          "(which must proceed, the action being started once) is treated as a loser and takes its failure path", line=n.line)
     aborts = [n for n in cfg.nodes if fate(n) == "abort" and any(n.ast is y for x in il.body for y in ast.walk(x))]
     ctx.check("C05.c.abort", SM, unit, "losers are aborted", len(aborts) >= 1 and all("get_flow_state_from_head" in src(fn) for _ in aborts),
               "heads that neither co-win nor catch are failed with _abort_flow (%d site)" % len(aborts), line=il.lineno)
 
     # ---- d: winner from the most specific ties -------------------------------------------
-    sorts = [s for s in gl.body if isinstance(s, ast.Assign) and isinstance(s.value, ast.Call) and isinstance(s.value.func, ast.Name) and s.value.func.id == "sorted"]
+    sorts = [s for s in linear(gl.body) if isinstance(s, ast.Assign) and isinstance(s.value, ast.Call) and isinstance(s.value.func, ast.Name) and s.value.func.id == "sorted"]
     okd, msg = False, "no `sorted(group, key=..., reverse=True)`"
     if sorts:
         c = sorts[0].value
@@ -221,14 +273,14 @@ def run(ctx):
             if isinstance(r, ast.BinOp) and isinstance(r.op, ast.Mult) and src(r.left) == "[1.0]" and isinstance(r.right, ast.BinOp) and isinstance(r.right.op, ast.Sub) \
                     and src(r.right.right) == "len(%s)" % src(key.body.left):
                 mx = src(r.right.left)
-                mdef = [a for a in gl.body if isinstance(a, ast.Assign) and isinstance(a.targets[0], ast.Name) and a.targets[0].id == mx]
+                mdef = [a for a in linear(gl.body) if isinstance(a, ast.Assign) and isinstance(a.targets[0], ast.Name) and a.targets[0].id == mx]
                 keyok = bool(mdef) and re.match(r"^max\(\(?len\(", src(mdef[0].value)) is not None and "matching_scores" in src(mdef[0].value) and src(c.args[0]) in src(mdef[0].value)
         src_group = src(c.args[0]) == (gl.target.id if isinstance(gl.target, ast.Name) else "")
         okd = rev and keyok and src_group
         msg = "heads of the group are sorted in descending order by their score chain padded with 1.0 to the longest chain (reverse=%s, padded key=%s)" % (rev, keyok)
         ctx.check("C05.d.order", SM, unit, "sort", okd, msg, line=sorts[0].lineno)
         # the tie prefix
-        idx = [s for s in gl.body if isinstance(s, ast.Assign) and isinstance(s.value, ast.Call) and isinstance(s.value.func, ast.Name) and s.value.func.id == "next"]
+        idx = [s for s in linear(gl.body) if isinstance(s, ast.Assign) and isinstance(s.value, ast.Call) and isinstance(s.value.func, ast.Name) and s.value.func.id == "next"]
         okp, msgp = False, "picked head is not drawn from the prefix of equal best scores"
         if pick:
             pe = pick[0].value
